@@ -32,15 +32,23 @@ FORCES = [None, ["filter"], ["stoch"], ["mixed"], ["constraint"], ["cont2"], ["a
 
 
 def cases(seed, tier):
-    n = 60 if tier == "quick" else 900
+    n = 108 if tier == "quick" else 1200
     out = []
     for i in range(n):
         c = {"kind": "gen", "seed": seed * 1_000_003 + 12001 + i, "force": FORCES[i % len(FORCES)], "n_params": 1, "budget": 1500}
         if i % 3 == 0:
             c["violations"] = []
+        elif i % 3 == 1:
+            # systematic: every single rule on top of every base family (rules that need a specific base, e.g. another
+            # valid stochastic state next to the offending one, are then met)
+            j = i // 3
+            c["violations"] = [VIOLATIONS[j % len(VIOLATIONS)]]
+            c["force"] = [None, ["stoch"], ["stoch", "filter"], ["cont2", "stoch"]][(j // len(VIOLATIONS)) % 4]
+            if c["violations"][0] in ("stoch_on_cont", "stoch_dep_cont"):
+                c["force"] = sorted(set((c["force"] or []) + ["stoch", "cs"]))   # "cs" guarantees a continuous state
         else:
             r = random.Random(c["seed"] + 5)
-            k = r.choice([1, 1, 2, 3])
+            k = r.choice([1, 2, 2, 3])
             c["violations"] = sorted(r.sample(VIOLATIONS, k=k))
         out.append(c)
     return out
